@@ -29,7 +29,7 @@ from ..gen import models
 PROPERTY = 'C04'
 LEVEL = 'model_checking'
 ENGINE = 'xlmc-H'
-RULE = ('all histories over set(input,v)/evaluate(cell) on 10 small acyclic '
+RULE = ('all histories over set(input,v)/evaluate(cell) on 11 small acyclic '
         'models, executed on the real library (fresh model per history, '
         'prefix replayed), oracle on the last step; non-trivial = the '
         'history contains an evaluate that follows a set of one of its '
@@ -50,7 +50,7 @@ TECHNIQUE = ('explicit-state exploration of set/evaluate histories on the '
              'fingerprint-merged BFS to the reachable-state fixpoint) with a '
              'differential fresh-model oracle')
 LEVEL_TEXT = ('Every history of set_cell_value/evaluate calls up to the depth '
-              'bound on 10 dependency shapes (chain, diamond, range of inputs, lazy branch, lookup, '
+              'bound on 11 dependency shapes (chain, diamond, range of inputs, lazy branch, lookup, '
               'range of formulas, cross-sheet, text, defined name) runs on '
               'the real library and is compared with a freshly built model '
               'and with reference arithmetic; a merged search covers the '
@@ -58,7 +58,7 @@ LEVEL_TEXT = ('Every history of set_cell_value/evaluate calls up to the depth '
 LEVEL_NOTE = ('Every transition is an execution of the implementation, so '
               'there is no model/implementation gap; trusted: the fingerprint '
               'covers every attribute a later operation can read (generic '
-              'walk), the per-model reference arithmetic.  Bounded: 10 models '
+              'walk), the per-model reference arithmetic.  Bounded: 11 models '
               'of <= 7 cells, two alternative values per input.')
 
 DEPTH = {'quick': 4, 'thorough': 5}
